@@ -29,6 +29,10 @@
 //! every GLOBAL_INTERVAL run_coroutine calls and go back to its selector after RUN_BUDGET of them, and select must return
 //! Some(0) then.  Oracle: the second coroutine runs within 2 s of virtual time.
 //!
+//! MAYV_MODE=storm (work stealing under trace acceptance): MAYV_N (default 8) coroutines spawned from two threads yield 6..15
+//! times each, some spawn and join a child: with 3 or 4 workers most of them migrate through steal_into.  Oracles: exactly
+//! once, join value, promptness.
+//!
 //! Trace acceptance (acceptor `schedloop`, coq/Rt/SchedLoopAccept.v): every spawn is bracketed by `sp.call(j)` / `sp.ret(j)`
 //! records, the run starts with `cfg(workers, idle poll ns)`; with MAYV_ATOMIC_SPMC=1 the hooks of may_queue/src/spmc.rs are
 //! not schedule points (the local run queues are the atomic FIFOs of C04: pop / steal_into / has_tasks and the pure record
@@ -325,6 +329,82 @@ fn mode_iotimer(ctx: &Ctx) {
     }
 }
 
+/// yield storm on several workers: stealing
+fn mode_storm(ctx: &Ctx, sh: &Arc<Sh>) {
+    let per = envn("MAYV_N", 8);
+    let sh2 = sh.clone();
+    let other = ctx.spawn("sp1", move || storm_spawner(&sh2, per / 2, 1));
+    storm_spawner(sh, per - per / 2, 2);
+    ctx.join(other);
+    let n = sh.next.load(SeqCst) as usize;
+    for j in 1..n {
+        let e = sh.exec[j].load(SeqCst);
+        if e != 1 {
+            ctx.fail(format!("closure of coroutine {j} was entered {e} times"));
+        }
+        if !sh.finished[j].load(SeqCst) {
+            ctx.fail(format!("coroutine {j} was spawned but never finished"));
+        }
+    }
+}
+
+fn storm_body(sh: &Arc<Sh>, j: usize, depth: u32) -> u64 {
+    let c = mayv::ctx();
+    let e = sh.exec[j].fetch_add(1, SeqCst);
+    if e != 0 {
+        c.fail(format!("closure of coroutine {j} entered {} times", e + 1));
+    }
+    let mut r = Rng((sh.seed ^ (j as u64).wrapping_mul(0x9E3779B97F4A7C15)) | 1);
+    r.next();
+    let n = 6 + r.below(10);
+    for i in 0..n {
+        may::coroutine::yield_now();
+        if depth < 1 && i == n / 2 && r.below(3) == 0 {
+            let (k, h) = storm_spawn(sh, depth + 1);
+            join_check(sh, k, h);
+        }
+    }
+    sh.done_at[j].store(c.now(), SeqCst);
+    sh.finished[j].store(true, SeqCst);
+    100 + j as u64
+}
+
+fn storm_spawn(sh: &Arc<Sh>, depth: u32) -> (usize, H) {
+    let c = mayv::ctx();
+    let j = sh.next.fetch_add(1, SeqCst) as usize;
+    assert!(j < MAXC);
+    sh.spawned_at[j].store(c.now(), SeqCst);
+    let sh2 = sh.clone();
+    let h = if depth == 0 && std::env::var("MAYV_PIN").is_ok() {
+        // everything into the global queue of worker 0 (Builder::id -> schedule_global_with_id): the others steal
+        c.log("sp.call", j as u64, 8, None);
+        let h = unsafe { may::coroutine::Builder::new().id(0).spawn(move || storm_body(&sh2, j, depth)) }.expect("spawn");
+        c.log("sp.ret", j as u64, 0, None);
+        h
+    } else {
+        logged(j as u64, || unsafe { may::coroutine::spawn(move || storm_body(&sh2, j, depth)) })
+    };
+    (j, h)
+}
+
+fn storm_spawner(sh: &Arc<Sh>, n: u64, salt: u64) {
+    let c = mayv::ctx();
+    let mut r = Rng((sh.seed.wrapping_mul(0x2545F4914F6CDD1D) ^ salt) | 1);
+    r.next();
+    let mut hs = vec![];
+    for _ in 0..n {
+        hs.push(storm_spawn(sh, 0));
+        if r.below(4) == 0 {
+            c.sleep_ns(r.below(200_000));
+        }
+    }
+    while !hs.is_empty() {
+        let i = r.below(hs.len() as u64) as usize;
+        let (k, h) = hs.remove(i);
+        join_check(sh, k, h);
+    }
+}
+
 /// budget and interval of run_queued_tasks: a local queue that never runs dry
 fn mode_spin(ctx: &Ctx) {
     let n = envn("MAYV_N", 300);
@@ -428,6 +508,7 @@ fn main() {
             "starve" => mode_starve(ctx),
             "iotimer" => mode_iotimer(ctx),
             "spin" => mode_spin(ctx),
+            "storm" => mode_storm(ctx, &sh),
             o => panic!("MAYV_MODE={o}"),
         }
         ctx.record(false);
